@@ -73,6 +73,7 @@ type Specs struct {
 	lemmas    []*Lemma
 	generated []string
 	unorderedOK map[string]string
+	structInv map[string][]Clause
 }
 
 type Lemma struct {
@@ -114,7 +115,7 @@ func (s *Specs) ifaceContract(it types.Type, method string) *Contract {
 func loadSpecs(w *World, trustedDir string) *Specs {
 	s := &Specs{contracts: map[string]*Contract{}, ifaces: map[string]*Contract{}, specFns: map[string]*SpecFn{}, pure: map[string]bool{},
 		mutators: map[string]bool{}, noInline: map[string]bool{}, nonnilField: map[string]bool{}, nonnilElem: map[string]bool{},
-		nonnilMapVal: map[string]bool{}, nonnilResult: map[string]bool{}, nonnilIface: map[string]bool{}, unorderedOK: map[string]string{}, w: w, pkgByName: map[string]*types.Package{}, typeInv: map[string][]Clause{}}
+		nonnilMapVal: map[string]bool{}, nonnilResult: map[string]bool{}, nonnilIface: map[string]bool{}, unorderedOK: map[string]string{}, structInv: map[string][]Clause{}, w: w, pkgByName: map[string]*types.Package{}, typeInv: map[string][]Clause{}}
 	for _, p := range w.prog.AllPackages() {
 		name := p.Pkg.Name()
 		if old, ok := s.pkgByName[name]; ok {
@@ -252,6 +253,11 @@ func (s *Specs) parseFile(path string, trusted bool) {
 						cur.LoopInv[n] = append(cur.LoopInv[n], Clause{Text: t, Tags: tags, Line: ln, Name: nm})
 						l := cur.LoopInv[n]
 						cur.last = &l[len(l)-1]
+					case "iter":
+						t, tags, nm := splitTags(strings.TrimSpace(f[2]))
+						cur.IterEns[n] = append(cur.IterEns[n], Clause{Text: t, Tags: tags, Line: ln, Name: nm})
+						l := cur.IterEns[n]
+						cur.last = &l[len(l)-1]
 					case "decreases":
 						cur.LoopDec[n] = f[2]
 					}
@@ -289,6 +295,12 @@ func (s *Specs) parseFile(path string, trusted bool) {
 			s.nonnilIface[rest] = true
 		case "result-nonnil":
 			s.nonnilResult[rest] = true
+		case "structinv":
+			// structinv <pkg.Type> : <expr over v (a pointer to the struct)>; assumed wherever a field of such a struct is read
+			if i := strings.Index(rest, ":"); i > 0 {
+				k := strings.TrimSpace(rest[:i])
+				s.structInv[k] = append(s.structInv[k], Clause{Text: strings.TrimSpace(rest[i+1:]), Line: ln})
+			}
 		case "typeinv":
 			// typeinv <type key> : <expr over v>
 			if i := strings.Index(rest, ":"); i > 0 {
